@@ -3,6 +3,7 @@ package props
 import (
 	"context"
 	"fmt"
+	"sort"
 	"sync"
 	"testing"
 	"time"
@@ -11,6 +12,8 @@ import (
 	"pgregory.net/rapid"
 
 	"github.com/jcmoraisjr/haproxy-ingress/pkg/utils/workqueue"
+	"verifharness/ctlsim"
+	"verifharness/world"
 )
 
 // C13 — rate limits hold: minimum spacing, coalescing, nothing dropped.
@@ -324,4 +327,178 @@ func init() { registerReplay("C13", execC13) }
 
 func TestC13(t *testing.T) {
 	runProperty(t, "C13", genC13, execC13)
+}
+
+// ---------- the controller's own enqueue sites ----------
+
+// C13SitesCase: notifications reach the reconciler's queue through the controller's own enqueue
+// sites: informer events (partial or full) and the leader subscriber.
+type C13SitesCase struct {
+	IntervalMs int           `json:"intervalMs"`
+	WaitMs     int           `json:"waitMs"`
+	Steps      []C13SiteStep `json:"steps"`
+}
+
+// C13SiteStep ...
+type C13SiteStep struct {
+	Gap  int    `json:"gap"`  // per-mille of the interval since the previous step
+	Site string `json:"site"` // partial (Endpoints event), full (global ConfigMap event), leader (leader acquired)
+}
+
+func genC13Sites(t *rapid.T) C13SitesCase {
+	c := C13SitesCase{IntervalMs: rapid.SampledFrom([]int{40, 60, 100}).Draw(t, "interval"), WaitMs: rapid.SampledFrom([]int{0, 0, 5}).Draw(t, "wait")}
+	n := rapid.IntRange(3, 8).Draw(t, "n")
+	for i := 0; i < n; i++ {
+		c.Steps = append(c.Steps, C13SiteStep{
+			Gap:  rapid.SampledFrom([]int{50, 200, 500, 900, 1100, 1500, 2500}).Draw(t, "gap"),
+			Site: rapid.SampledFrom([]string{"partial", "partial", "full", "full", "leader", "leader"}).Draw(t, "site"),
+		})
+	}
+	return c
+}
+
+func execC13Sites(c C13SitesCase) *Failure {
+	st := getStats("C13")
+	interval := time.Duration(c.IntervalMs) * time.Millisecond
+	wait := time.Duration(c.WaitMs) * time.Millisecond
+	s, err := ctlsim.New(ctlsim.Params{})
+	if err != nil {
+		panic(err)
+	}
+	defer s.Close()
+	type call struct {
+		full   bool
+		tb, ta time.Duration
+		d      time.Duration
+	}
+	type run struct {
+		full bool
+		at   time.Duration
+	}
+	var mu sync.Mutex
+	var calls []*call
+	var runs []run
+	start := time.Now()
+	qr := s.QueueReconciler(1000.0/float64(c.IntervalMs), wait, func(full bool, before, after time.Time, d time.Duration) {
+		mu.Lock()
+		calls = append(calls, &call{full: full, tb: before.Sub(start), ta: after.Sub(start), d: d})
+		mu.Unlock()
+	})
+	_ = qr.GetChangedObjects() // the controller has reconciled once: the watchers are running
+	done := make(chan struct{})
+	go func() {
+		defer close(done)
+		for {
+			full, shutdown := qr.Next()
+			if shutdown {
+				return
+			}
+			mu.Lock()
+			runs = append(runs, run{full: full, at: time.Since(start)})
+			mu.Unlock()
+		}
+	}()
+	ep := func(n int) *world.Obj {
+		return &world.Obj{Kind: world.KEndpoints, NS: "a", Name: "s1", Gen: int64(n), Subsets: []world.Subset{{Ready: []world.Addr{{IP: fmt.Sprintf("10.0.0.%d", n%200+1)}}, Ports: []world.SvcPort{{Port: 8080}}}}}
+	}
+	cm := func(n int) *world.Obj {
+		return &world.Obj{Kind: world.KConfigMap, NS: world.CtlNS, Name: "haproxy-ingress", Gen: int64(n), Data: map[string]string{"timeout-client": fmt.Sprintf("%ds", 30+n)}}
+	}
+	at := time.Duration(0)
+	leaderSteps := 0
+	for i, stp := range c.Steps {
+		at += interval * time.Duration(stp.Gap) / 1000
+		sleepUntil(start, at)
+		switch stp.Site {
+		case "partial":
+			qr.Dispatch("update", ep(i).ToK8s(), ep(i+1).ToK8s())
+		case "full":
+			qr.Dispatch("update", cm(i).ToK8s(), cm(i+1).ToK8s())
+		case "leader":
+			leaderSteps++
+			qr.LeaderChanged(true)
+		}
+	}
+	// every request is due by now; lateness is not a violation, so give a loaded machine time
+	sleepUntil(start, at+2*interval+wait+20*time.Millisecond)
+	deadline := time.Now().Add(5 * time.Second)
+	for time.Now().Before(deadline) {
+		mu.Lock()
+		lastCall := time.Duration(-1)
+		for _, cl := range calls {
+			if cl.tb > lastCall {
+				lastCall = cl.tb
+			}
+		}
+		ok := len(runs) > 0 && runs[len(runs)-1].at >= lastCall
+		mu.Unlock()
+		if ok {
+			break
+		}
+		time.Sleep(2 * time.Millisecond)
+	}
+	qr.ShutDown()
+	<-done
+	mu.Lock()
+	defer mu.Unlock()
+	desc := func() string {
+		out := ""
+		for i, cl := range calls {
+			out += fmt.Sprintf("\n  limiter call %d (full=%v) at [%v,%v] delay %v", i, cl.full, cl.tb.Round(10*time.Microsecond), cl.ta.Round(10*time.Microsecond), cl.d.Round(10*time.Microsecond))
+		}
+		for i, r := range runs {
+			out += fmt.Sprintf("\n  run %d (full=%v) at %v", i, r.full, r.at.Round(10*time.Microsecond))
+		}
+		return out
+	}
+	st.Case(c, leaderSteps > 0 && len(runs) >= 2, "enqueue-sites", fmt.Sprintf("interval=%dms", c.IntervalMs))
+	st.Count("site_notifications", len(c.Steps))
+	st.Count("site_runs", len(runs))
+	// One-sided and jitter-proof. The queue de-duplicates, so requests may share a run, and timers may fire late,
+	// but a run needs a request that the limiter has released: the i-th run of a kind cannot start before the i-th
+	// earliest instant the limiter granted to requests of that kind. A run that an enqueue site obtained without
+	// the limiter (or before the granted instant) breaks this.
+	for _, kind := range []bool{false, true} {
+		var granted []time.Duration
+		for _, cl := range calls {
+			if cl.full == kind {
+				granted = append(granted, cl.tb+cl.d)
+			}
+		}
+		sort.Slice(granted, func(i, j int) bool { return granted[i] < granted[j] })
+		n := 0
+		last := time.Duration(-1)
+		for i, r := range runs {
+			if r.full != kind {
+				continue
+			}
+			last = r.at
+			if n >= len(granted) {
+				return failf("C13:sites:run-not-rate-limited", "reconciliation %d (full=%v) started at %v although every request of that kind granted by the rate limiter had already been served: an enqueue site bypasses the limiter (interval %v)%s", i, r.full, r.at.Round(10*time.Microsecond), interval, desc())
+			}
+			if r.at < granted[n]-time.Millisecond/2 {
+				return failf("C13:sites:ran-early", "reconciliation %d (full=%v) started at %v; it is run number %d of its kind and the rate limiter granted the %d earliest requests of that kind the instants %v (interval %v)%s", i, r.full, r.at.Round(10*time.Microsecond), n+1, n+1, granted[:n+1], interval, desc())
+			}
+			n++
+		}
+		// nothing dropped: the last granted request of the kind is followed by a run
+		if len(granted) > 0 && last < granted[len(granted)-1]-time.Millisecond/2 {
+			return failf("C13:sites:dropped", "the last request (full=%v) granted by the rate limiter for %v was never served%s", kind, granted[len(granted)-1].Round(10*time.Microsecond), desc())
+		}
+	}
+	// spacing between the instants granted by the limiter (certain violations only)
+	for i := 0; i+1 < len(calls); i++ {
+		a, b := calls[i], calls[i+1]
+		if (b.tb+b.d)-(a.ta+a.d) < -time.Millisecond/2 {
+			// a later call may be granted the same pending instant, never an earlier one
+			return failf("C13:sites:schedule-went-backwards", "limiter call %d was granted an instant before the one of call %d%s", i+1, i, desc())
+		}
+	}
+	return nil
+}
+
+func init() { registerReplay("C13S", execC13Sites) }
+
+func TestC13Sites(t *testing.T) {
+	runPropertyAs(t, "C13", "C13S", genC13Sites, execC13Sites)
 }
